@@ -382,6 +382,10 @@ func (eng *Engine) translate(unit, mode string, fn *ssa.Function, fc *FuncContra
 	for _, c := range fc.Requires {
 		vc.assume(fr.evalClause(c, env, "requires"))
 	}
+	if !discovery && fn.Parent() == nil {
+		fr.wantParamValues(entry)
+		vc.replayFrame = fr
+	}
 	fr.run(entry, "true")
 	// postconditions at every return
 	for ri, r := range fr.rets {
